@@ -84,6 +84,12 @@ func newScanner(snapshot *KVSnapshot, startKey []byte, endKey []byte, batchSize 
 		reverse:      reverse,
 		nextEndKey:   endKey,
 	}
+	if len(startKey) > 0 && len(endKey) > 0 && bytes.Compare(startKey, endKey) >= 0 {
+		// An empty range: there is nothing to scan, and no region has to be asked.
+		scanner.eof = true
+		scanner.valid = false
+		return scanner, nil
+	}
 	err := scanner.Next()
 	if tikverr.IsErrNotFound(err) {
 		return scanner, nil
